@@ -46,7 +46,15 @@ const SPECIALS: &[u64] = &[
 ];
 
 fn bits(rng: &mut Rng, pool: &mut Vec<u64>) -> u64 {
-    let b = match rng.below(10) {
+    let b = match rng.below(12) {
+        // a value close to an earlier finite one: relative distance 10^-3 ... 10^-15, either side (a comparison with a
+        // tolerance - symmetric or not - is not the order the property speaks of)
+        10 | 11 if pool.iter().any(|b| f64::from_bits(*b).is_finite() && f64::from_bits(*b) != 0.) => {
+            let finite: Vec<u64> = pool.iter().copied().filter(|b| f64::from_bits(*b).is_finite() && f64::from_bits(*b) != 0.).collect();
+            let x = f64::from_bits(*rng.pick(&finite));
+            let rel = 10f64.powi(-(rng.range(3, 15) as i32)) * (1. + rng.range(0, 9) as f64 / 10.);
+            (if rng.chance(1, 2) { x * (1. + rel) } else { x * (1. - rel) }).to_bits()
+        }
         0..=2 if !pool.is_empty() => *rng.pick(pool), // ties
         0..=4 => *rng.pick(SPECIALS),
         5 => rng.pick(SPECIALS).wrapping_add(1),
@@ -149,12 +157,10 @@ fn build_goal(kinds: &[String]) -> (Goal, Vec<Feature>) {
             for (k, o) in objs.iter().enumerate() {
                 features.push(Feature { name: format!("f{}", idx + k), objective: Some(o.clone()), ..Feature::default() });
             }
-            // the same composition as the pragmatic goal reader uses for multi-objective layers
-            builder = builder.add_multi(
-                &objs,
-                |os, a, b| dominance_order(a, b, os.iter().map(|o| |a, b| o.fitness(a).total_cmp(&o.fitness(b)))),
-                |_, _| 0.,
-            );
+            // the composition the pragmatic goal reader itself uses for a multi-objective layer (hook H9): plain sum for
+            // even, weighted sum for odd positions
+            let weights = if idx % 2 == 1 { Some(vec![1.; n]) } else { None };
+            builder = vrp_pragmatic::format::problem::verif_eval_multi_objective_strategy(&objs, weights, builder).unwrap();
             idx += n;
         }
     }
